@@ -212,6 +212,10 @@ func c07Run(rc *core.RunCtx) {
 	if rc.Expired() || rc.Done() {
 		return
 	}
+	c.textHistory()
+	if rc.Expired() || rc.Done() {
+		return
+	}
 	// (1) binary operators, Go API (both representations, normal and in-place) and source text
 	rc.Part = "binary"
 	for _, a := range L {
